@@ -363,6 +363,8 @@ impl<K, V, S> HashMap<K, V, S> {
     /// assert!(map.pin().len() == 2);
     /// ```
     pub fn len(&self) -> usize {
+        #[cfg(feature = "verif")]
+        crate::verif::hit(crate::verif::RAW_ATOMIC, crate::verif::addr(&self.count), 0);
         let n = self.count.load(Ordering::Relaxed);
         if n < 0 {
             0
@@ -447,13 +449,19 @@ impl<K, V, S> HashMap<K, V, S> {
                 break table;
             }
             // try to allocate the table
+            #[cfg(feature = "verif")]
+            crate::verif::hit(crate::verif::RAW_ATOMIC, crate::verif::addr(&self.size_ctl), 0);
             let mut sc = self.size_ctl.load(Ordering::SeqCst);
             if sc < 0 {
                 // we lost the initialization race; just spin
+                #[cfg(feature = "verif")]
+                crate::verif::hit(crate::verif::SPIN, 0, 0);
                 std::thread::yield_now();
                 continue;
             }
 
+            #[cfg(feature = "verif")]
+            crate::verif::hit(crate::verif::RAW_ATOMIC, crate::verif::addr(&self.size_ctl), 0);
             if self
                 .size_ctl
                 .compare_exchange(sc, -1, Ordering::SeqCst, Ordering::Relaxed)
@@ -472,8 +480,16 @@ impl<K, V, S> HashMap<K, V, S> {
                     };
                     table = Shared::boxed(Table::new(n, &self.collector), &self.collector);
                     self.table.store(table, Ordering::SeqCst);
+                    #[cfg(feature = "verif")]
+                    crate::verif::hit(
+                        crate::verif::EV_TABLE_INIT,
+                        unsafe { table.as_ptr() } as usize,
+                        n,
+                    );
                     sc = load_factor!(n as isize)
                 }
+                #[cfg(feature = "verif")]
+                crate::verif::hit(crate::verif::RAW_ATOMIC, crate::verif::addr(&self.size_ctl), 0);
                 self.size_ctl.store(sc, Ordering::SeqCst);
                 break table;
             }
@@ -521,6 +537,8 @@ impl<K, V, S> HashMap<K, V, S> {
 
         // store the next load at which the table should resize to it's size_ctl field
         // and thus release the initialization "lock"
+        #[cfg(feature = "verif")]
+        crate::verif::hit(crate::verif::RAW_ATOMIC, crate::verif::addr(&self.size_ctl), 0);
         self.size_ctl.store(new_load_to_resize_at, Ordering::SeqCst);
     }
 }
@@ -550,6 +568,8 @@ where
         } as isize;
 
         loop {
+            #[cfg(feature = "verif")]
+            crate::verif::hit(crate::verif::RAW_ATOMIC, crate::verif::addr(&self.size_ctl), 0);
             let size_ctl = self.size_ctl.load(Ordering::SeqCst);
             if size_ctl < 0 {
                 break;
@@ -575,6 +595,8 @@ where
                 let new_capacity = requested_capacity.max(initial_capacity) as usize;
 
                 // try to aquire the initialization "lock" to indicate that we are initializing the table.
+                #[cfg(feature = "verif")]
+                crate::verif::hit(crate::verif::RAW_ATOMIC, crate::verif::addr(&self.size_ctl), 0);
                 if self
                     .size_ctl
                     .compare_exchange(size_ctl, -1, Ordering::SeqCst, Ordering::Relaxed)
@@ -592,6 +614,8 @@ where
 
                     // the table is already initialized; Write the `size_ctl` value it had back to it's
                     // `size_ctl` field to release the initialization "lock"
+                    #[cfg(feature = "verif")]
+                    crate::verif::hit(crate::verif::RAW_ATOMIC, crate::verif::addr(&self.size_ctl), 0);
                     self.size_ctl.store(size_ctl, Ordering::SeqCst);
                     continue;
                 }
@@ -618,6 +642,8 @@ where
 
                 // store the next load at which the table should resize to it's size_ctl field
                 // and thus release the initialization "lock"
+                #[cfg(feature = "verif")]
+                crate::verif::hit(crate::verif::RAW_ATOMIC, crate::verif::addr(&self.size_ctl), 0);
                 self.size_ctl.store(new_load_to_resize_at, Ordering::SeqCst);
             } else if requested_capacity <= size_ctl || current_capactity >= MAXIMUM_CAPACITY {
                 // Either the `requested_capacity` was smaller than or equal to the load we would resize at (size_ctl)
@@ -635,6 +661,8 @@ where
                 // and since our size_control field needs to be negative
                 // to indicate a resize this needs to be addressed
 
+                #[cfg(feature = "verif")]
+                crate::verif::hit(crate::verif::RAW_ATOMIC, crate::verif::addr(&self.size_ctl), 0);
                 if self
                     .size_ctl
                     .compare_exchange(size_ctl, rs + 2, Ordering::SeqCst, Ordering::Relaxed)
@@ -667,14 +695,30 @@ where
         let stride = if ncpu > 1 { (n >> 3) / ncpu } else { n };
         let stride = std::cmp::max(stride as isize, MIN_TRANSFER_STRIDE);
 
+        #[cfg(feature = "verif")]
+        let verif_initiator = next_table_ptr.is_null();
+        #[cfg(feature = "verif")]
+        let verif_table = unsafe { table.as_ptr() } as usize;
         if next_table_ptr.is_null() {
             // we are initiating a resize
             let table = Shared::boxed(Table::new(n << 1, &self.collector), &self.collector);
             let now_garbage = self.next_table.swap(table, Ordering::SeqCst, guard);
             assert!(now_garbage.is_null());
+            #[cfg(feature = "verif")]
+            crate::verif::hit(crate::verif::RAW_ATOMIC, crate::verif::addr(&self.transfer_index), 0);
             self.transfer_index.store(n as isize, Ordering::SeqCst);
             next_table_ptr = self.next_table.load(Ordering::Relaxed, guard);
         }
+        #[cfg(feature = "verif")]
+        crate::verif::hit(
+            if verif_initiator {
+                crate::verif::EV_RESIZE_INITIATED
+            } else {
+                crate::verif::EV_HELPER_JOINED
+            },
+            verif_table,
+            n,
+        );
 
         // safety: same argument as for table above
         let next_n = unsafe { next_table_ptr.deref() }.len();
@@ -692,6 +736,8 @@ where
                     break;
                 }
 
+                #[cfg(feature = "verif")]
+                crate::verif::hit(crate::verif::RAW_ATOMIC, crate::verif::addr(&self.transfer_index), 0);
                 let next_index = self.transfer_index.load(Ordering::SeqCst);
                 if next_index <= 0 {
                     i = -1;
@@ -704,6 +750,8 @@ where
                 } else {
                     0
                 };
+                #[cfg(feature = "verif")]
+                crate::verif::hit(crate::verif::RAW_ATOMIC, crate::verif::addr(&self.transfer_index), 0);
                 if self
                     .transfer_index
                     .compare_exchange(next_index, next_bound, Ordering::SeqCst, Ordering::Relaxed)
@@ -723,6 +771,12 @@ where
                     // this branch is only taken for one thread partaking in the resize!
                     self.next_table.store(Shared::null(), Ordering::SeqCst);
                     let now_garbage = self.table.swap(next_table_ptr, Ordering::SeqCst, guard);
+                    #[cfg(feature = "verif")]
+                    crate::verif::hit(
+                        crate::verif::EV_TABLE_PUBLISHED,
+                        verif_table,
+                        unsafe { next_table_ptr.as_ptr() } as usize,
+                    );
                     // safety: need to guarantee that now_garbage is no longer reachable. more
                     // specifically, no thread that executes _after_ this line can ever get a
                     // reference to now_garbage.
@@ -751,16 +805,24 @@ where
                     unsafe { guard.retire_shared(now_garbage) };
                     self.size_ctl
                         .store(((n as isize) << 1) - ((n as isize) >> 1), Ordering::SeqCst);
+                    #[cfg(feature = "verif")]
+                    crate::verif::hit(crate::verif::EV_TRANSFER_LEFT, verif_table, 1);
                     return;
                 }
 
+                #[cfg(feature = "verif")]
+                crate::verif::hit(crate::verif::RAW_ATOMIC, crate::verif::addr(&self.size_ctl), 0);
                 let sc = self.size_ctl.load(Ordering::SeqCst);
+                #[cfg(feature = "verif")]
+                crate::verif::hit(crate::verif::RAW_ATOMIC, crate::verif::addr(&self.size_ctl), 0);
                 if self
                     .size_ctl
                     .compare_exchange(sc, sc - 1, Ordering::SeqCst, Ordering::Relaxed)
                     .is_ok()
                 {
                     if (sc - 2) != Self::resize_stamp(n) << RESIZE_STAMP_SHIFT {
+                        #[cfg(feature = "verif")]
+                        crate::verif::hit(crate::verif::EV_TRANSFER_LEFT, verif_table, 0);
                         return;
                     }
 
@@ -794,6 +856,10 @@ where
                         guard,
                     )
                     .is_ok();
+                #[cfg(feature = "verif")]
+                if advance {
+                    crate::verif::hit(crate::verif::EV_BIN_FORWARDED, verif_table, i);
+                }
                 continue;
             }
             // safety: as for table above
@@ -822,7 +888,11 @@ where
                 }
                 BinEntry::Node(ref head) => {
                     // bin is non-empty, need to link into it, so we must take the lock
+                    #[cfg(feature = "verif")]
+                    crate::verif::hit(crate::verif::BEFORE_LOCK, crate::verif::addr(&head.lock), 0);
                     let head_lock = head.lock.lock();
+                    #[cfg(feature = "verif")]
+                    crate::verif::hit(crate::verif::AFTER_LOCK, crate::verif::addr(&head.lock), 0);
 
                     // need to check that this is _still_ the head
                     let current_head = table.bin(i, guard);
@@ -830,6 +900,8 @@ where
                         // nope -- try again from the start
                         continue;
                     }
+                    #[cfg(feature = "verif")]
+                    crate::verif::hit(crate::verif::WIN_HEAD_VALIDATED, 0, 0);
 
                     // yes, it is still the head, so we can now "own" the bin
                     // note that there can still be readers in the bin!
@@ -874,7 +946,13 @@ where
                     }
 
                     p = bin;
+                    #[cfg(feature = "verif")]
+                    let mut verif_cloned = 0usize;
                     while p != last_run {
+                        #[cfg(feature = "verif")]
+                        {
+                            verif_cloned += 1;
+                        }
                         // safety: p is a valid pointer.
                         //
                         // p is only retired when its bin is replaced with a move node
@@ -905,10 +983,20 @@ where
 
                         p = node.next.load(Ordering::SeqCst, guard);
                     }
+                    #[cfg(feature = "verif")]
+                    crate::verif::hit(crate::verif::EV_LIST_SPLIT, verif_cloned, i);
 
                     next_table.store_bin(i, low_bin);
+                    #[cfg(feature = "verif")]
+                    crate::verif::hit(crate::verif::WIN_TRANSFER_BETWEEN_BINS, verif_table, i);
                     next_table.store_bin(i + n, high_bin);
+                    #[cfg(feature = "verif")]
+                    crate::verif::hit(crate::verif::WIN_TRANSFER_BEFORE_FORWARD, verif_table, i);
                     table.store_bin(i, table.get_moved(next_table_ptr, guard));
+                    #[cfg(feature = "verif")]
+                    crate::verif::hit(crate::verif::EV_BIN_FORWARDED, verif_table, i);
+                    #[cfg(feature = "verif")]
+                    crate::verif::hit(crate::verif::WIN_TRANSFER_AFTER_FORWARD, verif_table, i);
 
                     // everything up to last_run in the _old_ bin linked list is now garbage.
                     // those nodes have all been re-allocated in the new bin linked list.
@@ -937,7 +1025,11 @@ where
                     drop(head_lock);
                 }
                 BinEntry::Tree(ref tree_bin) => {
+                    #[cfg(feature = "verif")]
+                    crate::verif::hit(crate::verif::BEFORE_LOCK, crate::verif::addr(&tree_bin.lock), 0);
                     let bin_lock = tree_bin.lock.lock();
+                    #[cfg(feature = "verif")]
+                    crate::verif::hit(crate::verif::AFTER_LOCK, crate::verif::addr(&tree_bin.lock), 0);
 
                     // need to check that this is _still_ the correct bin
                     let current_head = table.bin(i, guard);
@@ -945,6 +1037,8 @@ where
                         // nope -- try again from the start
                         continue;
                     }
+                    #[cfg(feature = "verif")]
+                    crate::verif::hit(crate::verif::WIN_HEAD_VALIDATED, 0, 0);
 
                     let mut low = Shared::null();
                     let mut low_tail = Shared::null();
@@ -1007,6 +1101,8 @@ where
                         e = tree_node.node.next.load(Ordering::Relaxed, guard);
                     }
 
+                    #[cfg(feature = "verif")]
+                    crate::verif::hit(crate::verif::EV_TREE_SPLIT, low_count, high_count);
                     let mut reused_bin = false;
                     let low_bin = if low_count <= UNTREEIFY_THRESHOLD {
                         // use a regular bin instead of a tree bin since the
@@ -1062,8 +1158,16 @@ where
                     };
 
                     next_table.store_bin(i, low_bin);
+                    #[cfg(feature = "verif")]
+                    crate::verif::hit(crate::verif::WIN_TRANSFER_BETWEEN_BINS, verif_table, i);
                     next_table.store_bin(i + n, high_bin);
+                    #[cfg(feature = "verif")]
+                    crate::verif::hit(crate::verif::WIN_TRANSFER_BEFORE_FORWARD, verif_table, i);
                     table.store_bin(i, table.get_moved(next_table_ptr, guard));
+                    #[cfg(feature = "verif")]
+                    crate::verif::hit(crate::verif::EV_BIN_FORWARDED, verif_table, i);
+                    #[cfg(feature = "verif")]
+                    crate::verif::hit(crate::verif::WIN_TRANSFER_AFTER_FORWARD, verif_table, i);
 
                     // if we did not re-use the old bin, it is now garbage,
                     // since all of its nodes have been reallocated. However,
@@ -1113,6 +1217,8 @@ where
         while next_table == self.next_table.load(Ordering::SeqCst, guard)
             && table == self.table.load(Ordering::SeqCst, guard)
         {
+            #[cfg(feature = "verif")]
+            crate::verif::hit(crate::verif::RAW_ATOMIC, crate::verif::addr(&self.size_ctl), 0);
             let sc = self.size_ctl.load(Ordering::SeqCst);
             if sc >= 0
                 || sc == rs + MAX_RESIZERS
@@ -1122,6 +1228,8 @@ where
                 break;
             }
 
+            #[cfg(feature = "verif")]
+            crate::verif::hit(crate::verif::RAW_ATOMIC, crate::verif::addr(&self.size_ctl), 0);
             if self
                 .size_ctl
                 .compare_exchange(sc, sc + 1, Ordering::SeqCst, Ordering::Relaxed)
@@ -1154,6 +1262,8 @@ where
         let _saw_bin_length = resize_hint.unwrap();
 
         loop {
+            #[cfg(feature = "verif")]
+            crate::verif::hit(crate::verif::RAW_ATOMIC, crate::verif::addr(&self.size_ctl), 0);
             let sc = self.size_ctl.load(Ordering::SeqCst);
             if count < sc {
                 // we're not at the next resize point yet
@@ -1187,11 +1297,15 @@ where
                 if nt.is_null() {
                     break;
                 }
+                #[cfg(feature = "verif")]
+                crate::verif::hit(crate::verif::RAW_ATOMIC, crate::verif::addr(&self.transfer_index), 0);
                 if self.transfer_index.load(Ordering::SeqCst) <= 0 {
                     break;
                 }
 
                 // try to join!
+                #[cfg(feature = "verif")]
+                crate::verif::hit(crate::verif::RAW_ATOMIC, crate::verif::addr(&self.size_ctl), 0);
                 if self
                     .size_ctl
                     .compare_exchange(sc, sc + 1, Ordering::SeqCst, Ordering::Relaxed)
@@ -1471,13 +1585,19 @@ where
                     idx = 0;
                 }
                 BinEntry::Node(ref node) => {
+                    #[cfg(feature = "verif")]
+                    crate::verif::hit(crate::verif::BEFORE_LOCK, crate::verif::addr(&node.lock), 0);
                     let head_lock = node.lock.lock();
+                    #[cfg(feature = "verif")]
+                    crate::verif::hit(crate::verif::AFTER_LOCK, crate::verif::addr(&node.lock), 0);
                     // need to check that this is _still_ the head
                     let current_head = tab.bin(idx, guard);
                     if current_head != raw_node {
                         // nope -- try the bin again
                         continue;
                     }
+                    #[cfg(feature = "verif")]
+                    crate::verif::hit(crate::verif::WIN_HEAD_VALIDATED, 0, 0);
                     // we now own the bin
                     // unlink it from the map to prevent others from entering it
                     // NOTE: The Java code stores the null bin _after_ the loop, and thus also has
@@ -1486,6 +1606,8 @@ where
                     // drop the lock early and do the counting and garbage collection outside the
                     // critical section.
                     tab.store_bin(idx, Shared::null());
+                    #[cfg(feature = "verif")]
+                    crate::verif::hit(crate::verif::WIN_UNLINKED, 0, idx);
                     drop(head_lock);
                     // next, walk the nodes of the bin and free the nodes and their values as we go
                     // note that we do not free the head node yet, since we're holding the lock it contains
@@ -1523,13 +1645,19 @@ where
                     idx += 1;
                 }
                 BinEntry::Tree(ref tree_bin) => {
+                    #[cfg(feature = "verif")]
+                    crate::verif::hit(crate::verif::BEFORE_LOCK, crate::verif::addr(&tree_bin.lock), 0);
                     let bin_lock = tree_bin.lock.lock();
+                    #[cfg(feature = "verif")]
+                    crate::verif::hit(crate::verif::AFTER_LOCK, crate::verif::addr(&tree_bin.lock), 0);
                     // need to check that this is _still_ the correct bin
                     let current_head = tab.bin(idx, guard);
                     if current_head != raw_node {
                         // nope -- try the bin again
                         continue;
                     }
+                    #[cfg(feature = "verif")]
+                    crate::verif::hit(crate::verif::WIN_HEAD_VALIDATED, 0, 0);
                     // we now own the bin
                     // unlink it from the map to prevent others from entering it
                     // NOTE: The Java code stores the null bin _after_ the loop, and thus also has
@@ -1538,6 +1666,8 @@ where
                     // drop the lock early and do the counting and garbage collection outside the
                     // critical section.
                     tab.store_bin(idx, Shared::null());
+                    #[cfg(feature = "verif")]
+                    crate::verif::hit(crate::verif::WIN_UNLINKED, 0, idx);
                     drop(bin_lock);
                     // next, walk the nodes of the bin and count how many values we remove
                     let mut p = tree_bin.first.load(Ordering::SeqCst, guard);
@@ -1770,7 +1900,11 @@ where
                 }
                 BinEntry::Node(ref head) => {
                     // bin is non-empty, need to link into it, so we must take the lock
+                    #[cfg(feature = "verif")]
+                    crate::verif::hit(crate::verif::BEFORE_LOCK, crate::verif::addr(&head.lock), 0);
                     let head_lock = head.lock.lock();
+                    #[cfg(feature = "verif")]
+                    crate::verif::hit(crate::verif::AFTER_LOCK, crate::verif::addr(&head.lock), 0);
 
                     // need to check that this is _still_ the head
                     let current_head = t.bin(bini, guard);
@@ -1778,6 +1912,8 @@ where
                         // nope -- try again from the start
                         continue;
                     }
+                    #[cfg(feature = "verif")]
+                    crate::verif::hit(crate::verif::WIN_HEAD_VALIDATED, 0, 0);
 
                     // yes, it is still the head, so we can now "own" the bin
                     // note that there can still be readers in the bin!
@@ -1860,7 +1996,11 @@ where
                 // cannot occur as in the Java code, TreeBins have a special, indicator hash value
                 BinEntry::Tree(ref tree_bin) => {
                     // bin is non-empty, need to link into it, so we must take the lock
+                    #[cfg(feature = "verif")]
+                    crate::verif::hit(crate::verif::BEFORE_LOCK, crate::verif::addr(&tree_bin.lock), 0);
                     let head_lock = tree_bin.lock.lock();
+                    #[cfg(feature = "verif")]
+                    crate::verif::hit(crate::verif::AFTER_LOCK, crate::verif::addr(&tree_bin.lock), 0);
 
                     // need to check that this is _still_ the correct bin
                     let current_head = t.bin(bini, guard);
@@ -1868,6 +2008,8 @@ where
                         // nope -- try again from the start
                         continue;
                     }
+                    #[cfg(feature = "verif")]
+                    crate::verif::hit(crate::verif::WIN_HEAD_VALIDATED, 0, 0);
 
                     // yes, it is still the head, so we can now "own" the bin
                     // note that there can still be readers in the bin!
@@ -1943,6 +2085,8 @@ where
             // _cannot_ be 0 at this point.
             debug_assert_ne!(bin_count, 0);
             if bin_count >= TREEIFY_THRESHOLD {
+                #[cfg(feature = "verif")]
+                crate::verif::hit(crate::verif::WIN_BEFORE_TREEIFY, 0, bini);
                 self.treeify_bin(t, bini, guard);
             }
             if let Some(old_val) = old_val {
@@ -2073,7 +2217,11 @@ where
                 }
                 BinEntry::Node(ref head) => {
                     // bin is non-empty, need to link into it, so we must take the lock
+                    #[cfg(feature = "verif")]
+                    crate::verif::hit(crate::verif::BEFORE_LOCK, crate::verif::addr(&head.lock), 0);
                     let head_lock = head.lock.lock();
+                    #[cfg(feature = "verif")]
+                    crate::verif::hit(crate::verif::AFTER_LOCK, crate::verif::addr(&head.lock), 0);
 
                     // need to check that this is _still_ the head
                     let current_head = t.bin(bini, guard);
@@ -2081,6 +2229,8 @@ where
                         // nope -- try again from the start
                         continue;
                     }
+                    #[cfg(feature = "verif")]
+                    crate::verif::hit(crate::verif::WIN_HEAD_VALIDATED, 0, 0);
 
                     // yes, it is still the head, so we can now "own" the bin
                     // note that there can still be readers in the bin!
@@ -2104,6 +2254,8 @@ where
                             // safety: since the value is present now, and we've held a guard from
                             // the beginning of the search, the value cannot be dropped until after
                             // we drop our guard.
+                            #[cfg(feature = "verif")]
+                            crate::verif::hit(crate::verif::WIN_BEFORE_CLOSURE, 0, 0);
                             let new_value =
                                 remapping_function(&n.key, unsafe { current_value.deref() });
 
@@ -2173,6 +2325,8 @@ where
                                 //    no other ways to get to a value except through its Node's
                                 //    `value` field (which is what we swapped), so freeing
                                 //    now_garbage is fine.
+                                #[cfg(feature = "verif")]
+                                crate::verif::hit(crate::verif::WIN_UNLINKED, 0, bini);
                                 unsafe { guard.retire_shared(p) };
                                 unsafe { guard.retire_shared(current_value) };
                                 break None;
@@ -2192,7 +2346,11 @@ where
                 }
                 BinEntry::Tree(ref tree_bin) => {
                     // bin is non-empty, need to link into it, so we must take the lock
+                    #[cfg(feature = "verif")]
+                    crate::verif::hit(crate::verif::BEFORE_LOCK, crate::verif::addr(&tree_bin.lock), 0);
                     let bin_lock = tree_bin.lock.lock();
+                    #[cfg(feature = "verif")]
+                    crate::verif::hit(crate::verif::AFTER_LOCK, crate::verif::addr(&tree_bin.lock), 0);
 
                     // need to check that this is _still_ the head
                     let current_head = t.bin(bini, guard);
@@ -2200,6 +2358,8 @@ where
                         // nope -- try again from the start
                         continue;
                     }
+                    #[cfg(feature = "verif")]
+                    crate::verif::hit(crate::verif::WIN_HEAD_VALIDATED, 0, 0);
 
                     // yes, it is still the head, so we can now "own" the bin
                     // note that there can still be readers in the bin!
@@ -2231,6 +2391,8 @@ where
                             // safety: since the value is present now, and we've held a guard from
                             // the beginning of the search, the value cannot be dropped until after
                             // we drop our guard.
+                            #[cfg(feature = "verif")]
+                            crate::verif::hit(crate::verif::WIN_BEFORE_CLOSURE, 0, 0);
                             let new_value =
                                 remapping_function(&n.key, unsafe { current_value.deref() });
 
@@ -2280,6 +2442,12 @@ where
                                         guard,
                                     );
                                     t.store_bin(bini, linear_bin);
+                                    #[cfg(feature = "verif")]
+                                    crate::verif::hit(
+                                        crate::verif::EV_UNTREEIFIED,
+                                        crate::verif::addr(t),
+                                        bini,
+                                    );
                                     // the old bin is now garbage, but its values are not,
                                     // since they are re-used in the linear bin.
                                     // safety: in the same way as for `now_garbage` above, any existing
@@ -2467,12 +2635,18 @@ where
                     continue;
                 }
                 BinEntry::Node(ref head) => {
+                    #[cfg(feature = "verif")]
+                    crate::verif::hit(crate::verif::BEFORE_LOCK, crate::verif::addr(&head.lock), 0);
                     let head_lock = head.lock.lock();
+                    #[cfg(feature = "verif")]
+                    crate::verif::hit(crate::verif::AFTER_LOCK, crate::verif::addr(&head.lock), 0);
 
                     // need to check that this is _still_ the head
                     if t.bin(bini, guard) != bin {
                         continue;
                     }
+                    #[cfg(feature = "verif")]
+                    crate::verif::hit(crate::verif::WIN_HEAD_VALIDATED, 0, 0);
 
                     let mut e = bin;
                     let mut pred: Shared<'_, BinEntry<K, V>> = Shared::null();
@@ -2521,6 +2695,8 @@ where
 
                                 // in either case, mark the BinEntry as garbage, since it was just removed
                                 // safety: as for val below / in put
+                                #[cfg(feature = "verif")]
+                                crate::verif::hit(crate::verif::WIN_UNLINKED, 0, bini);
                                 unsafe { guard.retire_shared(e) };
                             }
                             // since the key was found and only one node exists per key, we can break here
@@ -2536,12 +2712,18 @@ where
                     drop(head_lock);
                 }
                 BinEntry::Tree(ref tree_bin) => {
+                    #[cfg(feature = "verif")]
+                    crate::verif::hit(crate::verif::BEFORE_LOCK, crate::verif::addr(&tree_bin.lock), 0);
                     let bin_lock = tree_bin.lock.lock();
+                    #[cfg(feature = "verif")]
+                    crate::verif::hit(crate::verif::AFTER_LOCK, crate::verif::addr(&tree_bin.lock), 0);
 
                     // need to check that this is _still_ the head
                     if t.bin(bini, guard) != bin {
                         continue;
                     }
+                    #[cfg(feature = "verif")]
+                    crate::verif::hit(crate::verif::WIN_HEAD_VALIDATED, 0, 0);
 
                     let root = tree_bin.root.load(Ordering::SeqCst, guard);
                     if root.is_null() {
@@ -2593,6 +2775,12 @@ where
                                 let linear_bin = self
                                     .untreeify(tree_bin.first.load(Ordering::SeqCst, guard), guard);
                                 t.store_bin(bini, linear_bin);
+                                #[cfg(feature = "verif")]
+                                crate::verif::hit(
+                                    crate::verif::EV_UNTREEIFIED,
+                                    crate::verif::addr(t),
+                                    bini,
+                                );
                                 // the old bin is now garbage, but its values are not,
                                 // since they get re-used in the linear bin
                                 // safety: same as in put
@@ -2738,11 +2926,17 @@ where
             // won't be dropped until after we release our guard.
             match **unsafe { bin.deref() } {
                 BinEntry::Node(ref node) => {
+                    #[cfg(feature = "verif")]
+                    crate::verif::hit(crate::verif::BEFORE_LOCK, crate::verif::addr(&node.lock), 0);
                     let lock = node.lock.lock();
+                    #[cfg(feature = "verif")]
+                    crate::verif::hit(crate::verif::AFTER_LOCK, crate::verif::addr(&node.lock), 0);
                     // check if `bin` is still the head
                     if tab.bin(index, guard) != bin {
                         return;
                     }
+                    #[cfg(feature = "verif")]
+                    crate::verif::hit(crate::verif::WIN_HEAD_VALIDATED, 0, 0);
                     let mut e = bin;
                     let mut head = Shared::null();
                     let mut tail = Shared::null();
@@ -2789,6 +2983,8 @@ where
                     // and have never shared them
                     let head_bin = unsafe { BinEntry::Tree(TreeBin::new(head, guard)) };
                     tab.store_bin(index, Shared::boxed(head_bin, &self.collector));
+                    #[cfg(feature = "verif")]
+                    crate::verif::hit(crate::verif::EV_TREEIFIED, crate::verif::addr(tab), index);
                     drop(lock);
                     // make sure the old bin entries get dropped
                     e = bin;
